@@ -260,20 +260,23 @@ theorem attribution_by_channel (allLocal : Bool) (m : SlmMask) (views : List Cha
   · rintro ⟨v, hv, i, hiv, hh⟩
     exact ⟨i, mem_nestedInstrsFrom.mpr ⟨k, v, hv, by simpa using hiv⟩, hh⟩
 
-/-- **Per-atom phase, committed rule** (`d[..][PHASE] += cs.phase`): the phase sample of an
-entry is the sum of the painted phases of *every* channel written into the entry at that
-time.  So over a pulse it is that pulse's phase exactly when its channel is the only writer
-(with `phase_on_pulse` for the channel's own array); with a second writer of the same basis
-and addressing class it is not — finding F-C06-1 (F23 of C05). -/
+/-- **Per-atom phase, rule before the repair of F23** (`d[..][PHASE] += cs.phase`): the phase
+sample of an entry is the sum of the painted phases of *every* channel written into the entry
+at that time.  So over a pulse it is that pulse's phase exactly when its channel is the only
+writer (with `phase_on_pulse` for the channel's own array); with a second writer of the same
+basis and addressing class it was not — finding F-C06-1 (F23 of C05), now repaired. -/
 theorem per_atom_phase_sum (instrs : List NInstr) (b : Basis) (q : Option Nat) (t : Int) :
     entryPhaseSum ((attribAt instrs b q t).map (·.1)) = (attribAt instrs b q t).map (·.1) ∧
     (∀ k w, attribAt instrs b q t = [(k, w)] → entryPhaseSum ((attribAt instrs b q t).map (·.1)) = [k]) := by
   refine ⟨rfl, fun k w h => ?_⟩
   rw [h]; rfl
 
-/-- **Per-atom phase, repaired rule** (`_add_channel_samples`): whenever exactly one of the
+/-- **Per-atom phase, current rule** (`_add_channel_samples`): whenever exactly one of the
 channels written into an entry has a non-zero amplitude at that time, the entry's phase is
-the painted phase of that channel alone — whatever the other channels' phases are. -/
+the painted phase of that channel alone — whatever the other channels' phases are; with
+`phase_on_pulse` this is the phase of the pulse that channel plays at that time.  (When two
+channels drive one entry at the same time the phases are still added; the format cannot
+carry two phases and the property is not judged there.) -/
 theorem per_atom_phase_single_drive (instrs : List NInstr) (on : Nat → Bool) (b : Basis) (q : Option Nat)
     (t : Int) (pre post : List Nat) (k0 : Nat)
     (hw : (attribAt instrs b q t).map (·.1) = pre ++ k0 :: post)
